@@ -259,7 +259,51 @@ func (s *Session) execLocked(sql string, args []interface{}, je *JournalEntry) [
 			break
 		}
 	}
+	if len(stmts) > 1 {
+		coalesceJournal(je)
+	}
 	return out
+}
+
+// coalesceJournal: a multi-statement text is one journal entry; its ground truth is stated per row for the text as a
+// whole: content before the text (first Before), content after it (last After), matched rows with their content
+// before the text.
+func coalesceJournal(je *JournalEntry) {
+	idx := map[string]int{}
+	var ch []RowChange
+	for _, c := range je.Changes {
+		k := strings.ToUpper(c.Table) + "\x00" + c.Key
+		if i, ok := idx[k]; ok {
+			ch[i].After = c.After
+			continue
+		}
+		idx[k] = len(ch)
+		ch = append(ch, c)
+	}
+	je.Changes = ch[:0]
+	for _, c := range ch {
+		if c.Before == nil && c.After == nil {
+			continue // inserted and deleted again inside the text
+		}
+		je.Changes = append(je.Changes, c)
+	}
+	seen := map[string]bool{}
+	var m []string
+	var mr [][]interface{}
+	for i, k := range je.Matched {
+		if seen[k] {
+			continue
+		}
+		seen[k] = true
+		m = append(m, k)
+		if i < len(je.MatchedRows) && len(je.MatchedRows) == len(je.Matched) {
+			mr = append(mr, je.MatchedRows[i])
+		}
+	}
+	if len(je.MatchedRows) == len(je.Matched) {
+		je.MatchedRows = mr
+	}
+	je.Matched = m
 }
 
 func (s *Session) execXA(verb, id, rest string, je *JournalEntry) []result {
